@@ -103,6 +103,7 @@ impl TxDependency {
                 if dependent.onboard {
                     if pop_next && tx == txid + 1 && {
                         vpoint!(DEPX, "DX_Load");
+                        vemit!(DEPX, "DX_Load", "index" => self.index.load(Ordering::Relaxed));
                         self.index.load(Ordering::Relaxed) > tx
                     } {
                         dependent.onboard = false;
@@ -114,6 +115,7 @@ impl TxDependency {
                     } else {
                         vpoint!(DEPX, "DX_Min");
                         self.index.fetch_min(tx, Ordering::Relaxed);
+                        vemit!(DEPX, "DX_Min", "to" => tx);
                         #[cfg(grevm_verif)]
                         {
                             action = "rewind";
@@ -138,6 +140,7 @@ impl TxDependency {
                 state.dependency = None;
                 vpoint!(DEPX, "DX_Min");
                 self.index.fetch_min(next, Ordering::Relaxed);
+                vemit!(DEPX, "DX_Min", "to" => next);
             }
             vemit!(DEP, "DC_Commit", "tx" => txid, "released" => state.onboard);
         }
@@ -151,6 +154,7 @@ impl TxDependency {
     pub(crate) fn key_tx(&self, txid: TxId, commit_idx: PublishedCursorReader<'_>) {
         let mut state = self.dependent_state[txid].lock();
         vpoint!(DEPX, "DX_Committed");
+        vemit!(DEPX, "DX_Committed", "committed" => commit_idx.get());
         if txid > commit_idx.get() {
             state.dependency = Some(txid);
         }
@@ -160,6 +164,7 @@ impl TxDependency {
         if state.dependency.is_none() {
             vpoint!(DEPX, "DX_Min");
             self.index.fetch_min(txid, Ordering::Relaxed);
+            vemit!(DEPX, "DX_Min", "to" => txid);
         }
         vemit!(DEP, "DK_KeyTx", "tx" => txid, "committed" => commit_idx.get(),
             "dep" => state.dependency);
@@ -194,6 +199,7 @@ impl TxDependency {
             if dep_state.dependency.is_none() {
                 vpoint!(DEPX, "DX_Min");
                 self.index.fetch_min(dep_id, Ordering::Relaxed);
+                vemit!(DEPX, "DX_Min", "to" => dep_id);
             }
             vemit!(DEP, "DA_Add", "tx" => txid, "dep" => Some(dep_id),
                 "reoffer" => dep_state.dependency.is_none());
@@ -206,6 +212,7 @@ impl TxDependency {
                 state.dependency = None;
                 vpoint!(DEPX, "DX_Min");
                 self.index.fetch_min(txid, Ordering::Relaxed);
+                vemit!(DEPX, "DX_Min", "to" => txid);
             }
             vemit!(DEP, "DA_Add", "tx" => txid, "dep" => Option::<usize>::None,
                 "reoffer" => !was_onboard);
